@@ -236,6 +236,7 @@ def generic_rewrite(text, fired, member_exclude=(), member_extra=(), no_members=
     text = sub('and', r'\band\b', '&&', text)
     text = sub('or', r'\bor\b', '||', text)
     text = sub('not', r'\bnot\b', '!', text)
+    text = sub('auto const', r'\bauto\s+const\b(?!\s*&)', '__auto_type', text)
     text = sub('auto', r'\b(?:const\s+)?auto\b(?!\s*&)', '__auto_type', text)
     text = sub('static_assert', r'\bstatic_assert\s*\(', 'BT_STATIC_ASSERT(', text)
     text = sub('assert', r'(?<![\w])assert\s*\(', 'BT_ASSERT(', text)
